@@ -12,6 +12,7 @@ import (
 	"encoding/hex"
 	goerrors "errors"
 	"fmt"
+	"io"
 	"sort"
 	"strings"
 
@@ -115,6 +116,9 @@ var Shapes = []*Shape{
 		e = errors.WithHint(e, "a hint")
 		return errors.WithDetail(e, "a detail")
 	}},
+	{"marked", "WithStack(Mark(Wrap(New), io.EOF)): a layer that stores a ready-made identity mark", func() error {
+		return errors.WithStack(errors.Mark(errors.Wrap(errors.New("inner"), "ctx"), io.EOF))
+	}},
 	{"gleaf", "Wrap(&driver.GLeaf[string]): a user-defined generic leaf type", func() error {
 		return errors.Wrap(&GLeaf[string]{Msg: "generic"}, "ctx")
 	}},
@@ -181,7 +185,8 @@ var Observers = []*Observer{
 		return hex.EncodeToString(b)
 	}},
 	{"Is", func(e error) string {
-		return fmt.Sprintf("canceled=%v self=%v", errors.Is(e, context.Canceled), errors.Is(e, e))
+		return fmt.Sprintf("canceled=%v eof=%v any=%v self=%v", errors.Is(e, context.Canceled), errors.Is(e, io.EOF),
+			errors.IsAny(e, context.DeadlineExceeded, io.ErrUnexpectedEOF, io.EOF), errors.Is(e, e))
 	}},
 	{"As", func(e error) string {
 		var p *ut.PtrLeaf
